@@ -28,7 +28,10 @@ def run(cx, chk):
     chk.rule("C07.R4", "put_protected: the key ends in protected and nowhere else")
     chk.rule("C07.R5", "non-use operations (peek*, contains, len, per-segment accessors, ...) reach no mutation: they neither promote nor refresh")
     chk.rule("C07.R6", "purge empties every retained list of the cache")
+    chk.rule("C07.R7", "the segment bounds the policy runs on are the configured ones: SegmentedCacheBuilder methods never cross-wire fields, and a clone keeps each bound in its own field")
     for cfg, F in cx.cfgs():
+        composite.builder_setters(cx, chk, cfg, F, "C07.R7", only=("SegmentedCacheBuilder",))
+        composite.clone_bounds(cx, chk, cfg, F, "C07.R7", only=("SegmentedCache",))
         composite.policy_hygiene(cx, chk, cfg, F, "SegmentedCache", "C07.R5", "C07.R6")
         for name, trait in (("put", api.CACHE_TRAIT), ("get", api.CACHE_TRAIT), ("get_mut", api.CACHE_TRAIT), ("put_protected", None)):
             f = composite.cache_method(F, ADT, name, trait)
